@@ -47,7 +47,7 @@ let cop_of s = match s.[0] with
   | 'S' | 'I' | 'H' | 'R' -> None
   | _ -> failwith ("bad cop " ^ s)
 let jop_of s = match s.[0] with
-  | 'e' -> Some (JEnq (nat_of_int (num s))) | 't' -> Some JTerm
+  | 'e' -> Some (JEnq (nat_of_int (num s))) | 't' -> Some JTerm | 'w' -> Some (JWait (nat_of_int (num s)))
   | 'x' | 'F' | 'B' | 'c' -> None
   | _ -> failwith ("bad jop " ^ s)
 let has_cont (sc : scen) = List.exists (fun (_, ops) -> List.exists (fun o -> o.[0] = 'c') ops) sc.jobs
@@ -88,6 +88,9 @@ let events_of (toks : string array) : (int * int * action) list =
            | [tid2; "US"; tg; _; _] -> tid2 = tid && List.mem tg tags | _ -> false) in
        let e =
          (try match rest with
+          (* the harness' own rendezvous mutex m1 / condition variable c2: in the LTS a rendezvous is the single event WD,
+             enabled only when the awaited job body has ended *)
+          | ["L"; "m1"] | ["U"; "m1"] | ["WB"; "c2"; "m1"] | ["WE"; "c2"; "m1"] | ["WE"; "c2"; "m1"; "spurious"] | ["NA"; "c2"] -> None
           | ["L"; "m0"] -> Some (Ev ELock)
           | ["U"; "m0"] ->
             if !i + 1 < n then
@@ -114,6 +117,7 @@ let events_of (toks : string array) : (int * int * action) list =
           | ["US"; "LE"; a; _] -> Some (Ev (EUser (ULE, nat_arg a)))
           | ["US"; "LT"; a; _] -> Some (Ev (EUser (ULT, nat_arg a)))
           | ["US"; "TERM"; a; _] -> Some (Ev (EUser (UTERM, nat_arg a)))
+          | ["US"; "WD"; a; _] -> Some (Ev (EUser (UWD, nat_arg a)))
           | ["US"; ("CD" | "IT" | "SZ" | "THR"); _; _] | ["Y"] -> None
           | _ -> raise (Unparsable tok)
           with Unparsable _ -> raise (Unparsable tok)) in
@@ -156,7 +160,9 @@ let direct_check (sc : scen) (toks : string array) : dstate =
        | Some j -> d.enq <- j :: d.enq; d.pend <- List.remove_assoc t d.pend
        | None -> ())
     | [_; "U"; "m0"] | [_; "WB"; _; "m0"] -> d.holder <- -1
-    | tid :: "WE" :: _ -> d.holder <- int_of_string tid
+    | tid :: "WE" :: _ :: "m0" :: _ -> d.holder <- int_of_string tid
+    | [_; "US"; "WD"; a; _] ->
+      if not (List.mem (int_of_string a) d.je) then flag (Printf.sprintf "rendezvous on job %s returned before that job's body ended (token %d)" a idx)
     | [_; "AR"; "a0"; _; nn] -> d.busyv <- int_of_string nn
     | [tid; "US"; "CD"; a; _] ->
       let t = int_of_string tid and j = int_of_string a in
@@ -226,6 +232,7 @@ let impl_rest (toks : string array) (d : dstate) (state : (string * int) list) (
          | Some "LT" -> if term = 1 && busy = 0 then res := Printf.sprintf "LT@%d" id :: !res
          | _ -> res := Printf.sprintf "UNKNOWNWAIT@%d" id :: !res)
       | 2, ("WB" :: "c0" :: _) :: _ -> if term = 1 || jobs > 0 then res := Printf.sprintf "IDLE@%d" id :: !res
+      | 2, ("WB" :: "c2" :: _) :: _ -> ()      (* a job body blocked in a rendezvous: the job graph's business, not the pool's *)
       | 3, _ ->
         let rec strip = function ("J" :: _) :: r -> strip r | l -> l in
         (match strip evs with
